@@ -130,8 +130,12 @@ class Ctx(object):
 
     def canary(self):
         """`pc => False` must be refuted (pc satisfiable): vacuity guard."""
-        self.canaries += 1
         r, _, _ = self.eng._check()
+        if r == z3.unknown:
+            # quantified path conditions: satisfiability undecided, not evidence of vacuity
+            self.canaries_unknown = getattr(self, "canaries_unknown", 0) + 1
+            return r
+        self.canaries += 1
         if r == z3.sat:
             self.canaries_refuted += 1
         return r
